@@ -149,3 +149,117 @@ Proof.
   intros H. unfold zpixels, ipixels. rewrite H, <- (map_fst_indexed (unmasked m) 0).
   rewrite combine_map_l. reflexivity.
 Qed.
+
+(* ================================================================== Part 2: theorems at ROps *)
+Local Open Scope R_scope.
+Notation RR := (R * R)%type (only parsing).
+
+Definition ps_okR (ps : RR) : Prop := fst ps <> 0 /\ snd ps <> 0.
+Definition subs_ok (ss : list nat) : Prop := Forall (fun s => (1 <= s)%nat) ss.
+Definition shape_okP (m : mask) (ss : list nat) : Prop := length ss = length (unmasked m) /\ subs_ok ss.
+
+Lemma ofNat_R n : @ofNat ROps n = INR n.
+Proof. unfold ofNat. cbn. now rewrite INR_IZR_INZ. Qed.
+Lemma INR_pos_of_le s : (1 <= s)%nat -> INR s <> 0.
+Proof. intros H. apply not_0_INR. lia. Qed.
+
+Lemma flat_map_map {A B C} (g : A -> B) (h : B -> list C) l : flat_map h (map g l) = flat_map (fun x => h (g x)) l.
+Proof. induction l; cbn; congruence. Qed.
+Lemma flat_map_ext_in {A B} (g h : A -> list B) l : (forall x, In x l -> g x = h x) -> flat_map g l = flat_map h l.
+Proof. intros H. induction l; cbn; auto. rewrite H, IHl; auto with datatypes. Qed.
+
+Lemma zpixels_sub_ok m ss z : subs_ok ss -> In z (zpixels m ss) -> (1 <= snd z)%nat.
+Proof.
+  intros Hs Hin. unfold zpixels in Hin. destruct z as [ip s]. apply in_combine_r in Hin.
+  unfold subs_ok in Hs. rewrite Forall_forall in Hs. cbn. auto.
+Qed.
+
+(* spec side, from the triples *)
+Lemma spec_centres_zip m ps og ss :
+  combine (@spec_centres ROps m ps og) ss
+  = map (fun z : ipix * nat => (@pixel_centre ROps (shape0 m) (shape1 m) ps og (snd (fst z)), snd z)) (zpixels m ss).
+Proof.
+  unfold spec_centres. rewrite combine_map_l, <- zpixels_pix, map_map. reflexivity.
+Qed.
+
+(* one sub-pixel: the code's expression = the centre of cell (a, b) of the uniform partition *)
+Definition grid_point (H W : nat) (ps og : RR) (y x s y1 x1 : nat) : RR :=
+  let c := @central_scaled ROps H W ps og in
+  let N := @ofNat ROps in
+  (- ((N y - fst c) * fst ps - fst ps / 2 + N y1 * (fst ps / N s) + (fst ps / N s) / 2),
+   (N x - snd c) * snd ps - snd ps / 2 + N x1 * (snd ps / N s) + (snd ps / N s) / 2).
+Definition grid_body (H W : nat) (ps og : RR) (y x s : nat) (acc : list RR) : list RR :=
+  for_range s (fun y1 acc => for_range s (fun x1 acc => acc ++ [grid_point H W ps og y x s y1 x1]) acc) acc.
+
+Lemma sub_point_formula (H W : nat) (ps og : RR) (y x s a b : nat) :
+  ps_okR ps -> (1 <= s)%nat ->
+  grid_point H W ps og y x s a b = @sub_centre ROps ps (@pixel_centre ROps H W ps og (y, x)) s a b.
+Proof.
+  intros [Hy Hx] Hs. pose proof (INR_pos_of_le s Hs) as Hs0.
+  unfold grid_point, sub_centre, pixel_centre, central_scaled, half, one, two. cbn zeta. rewrite !ofNat_R.
+  cbn [fst snd add sub mul div opp ofZ ROps T].
+  f_equal; field; auto.
+Qed.
+
+Lemma over_sampled_grid_body m (ps og : RR) ss :
+  @over_sampled_grid ROps m ps og ss
+  = pixel_loop (fun y x index acc => grid_body (shape0 m) (shape1 m) ps og y x (nth index ss 0%nat) acc) m [].
+Proof. reflexivity. Qed.
+
+Theorem sub_grid_formula m (ps og : RR) ss :
+  shape_okP m ss -> ps_okR ps ->
+  @over_sampled_grid ROps m ps og ss = @spec_grid ROps m ps og ss.
+Proof.
+  intros [Hl Hs] Hps. rewrite over_sampled_grid_body. unfold spec_grid.
+  rewrite (pixel_loop_zip (fun y x _ s acc => grid_body (shape0 m) (shape1 m) ps og y x s acc)) by exact Hl.
+  rewrite (fold_left_ext _ (fun acc (z : ipix * nat) => acc ++
+     flat_map (fun a => map (fun b => grid_point (shape0 m) (shape1 m) ps og (fst (snd (fst z))) (snd (snd (fst z))) (snd z) a b)
+                            (seq 0 (snd z))) (seq 0 (snd z)))).
+  2:{ intros acc z _. unfold grid_body. rewrite for_range2_append. reflexivity. }
+  rewrite (fold_left_append (fun z : ipix * nat => flat_map (fun a => map (fun b =>
+     grid_point (shape0 m) (shape1 m) ps og (fst (snd (fst z))) (snd (snd (fst z))) (snd z) a b) (seq 0 (snd z))) (seq 0 (snd z)))).
+  cbn [app].
+  rewrite spec_centres_zip, flat_map_map. apply flat_map_ext_in. intros z Hz.
+  pose proof (zpixels_sub_ok m ss z Hs Hz) as Hz1.
+  unfold block. cbn [fst snd]. apply flat_map_ext_in. intros a _. apply map_ext. intros b.
+  destruct z as [[i [y x]] s]. cbn [fst snd] in *.
+  apply (sub_point_formula (shape0 m) (shape1 m) ps og y x s a b Hps Hz1).
+Qed.
+
+(* ------------------------------------------------------------------ pixel centres: Grid2D.from_mask / derive_grid.unmasked *)
+Theorem centres_formula m (ps og : RR) : ps_okR ps ->
+  @grid_slim_via_mask ROps m ps og = @spec_centres ROps m ps og.
+Proof.
+  intros [Hy Hx]. unfold grid_slim_via_mask, spec_centres. rewrite pixel_loop_fold.
+  rewrite (fold_left_ext _ (fun acc (ip : ipix) => acc ++ [@pixel_centre ROps (shape0 m) (shape1 m) ps og (snd ip)])).
+  - rewrite (fold_left_append (fun ip : ipix => [@pixel_centre ROps (shape0 m) (shape1 m) ps og (snd ip)])).
+    cbn [app]. rewrite flat_map_singleton. unfold ipixels.
+    rewrite <- (map_fst_combine_indexed (unmasked m) 0) at 2. now rewrite map_map.
+  - intros acc [i [y x]] _. unfold ibody. cbn [fst snd]. f_equal. f_equal.
+    unfold pixel_centre, central_scaled, two. rewrite !ofNat_R. cbn [fst snd add sub mul div opp ofZ ROps T].
+    f_equal; field; auto.
+Qed.
+
+Lemma flat_map_map_length {A B C} (h : A -> B -> C) (l2 : list B) (l : list A) :
+  length (flat_map (fun a => map (h a) l2) l) = (length l * length l2)%nat.
+Proof. induction l; cbn; auto. rewrite app_length, map_length, IHl. reflexivity. Qed.
+Lemma block_length (ps c : RR) s : length (@block ROps ps c s) = (s * s)%nat.
+Proof. unfold block. rewrite (flat_map_map_length (fun a b => @sub_centre ROps ps c s a b)), seq_length. reflexivity. Qed.
+
+(* every sub-centre is the midpoint of cell (a, b) of the uniform s x s partition of the pixel
+   [cy - sy/2, cy + sy/2] x [cx - sx/2, cx + sx/2]; rows are counted from the top (largest y) *)
+Definition cell_y_hi (ps c : RR) (s a : nat) : R := fst c + fst ps / 2 - INR a * (fst ps / INR s).
+Definition cell_x_lo (ps c : RR) (s b : nat) : R := snd c - snd ps / 2 + INR b * (snd ps / INR s).
+Lemma sub_centre_is_cell_midpoint (ps c : RR) s a b : (1 <= s)%nat ->
+  @sub_centre ROps ps c s a b =
+  ((cell_y_hi ps c s a + cell_y_hi ps c s (S a)) / 2, (cell_x_lo ps c s b + cell_x_lo ps c s (S b)) / 2).
+Proof.
+  intros Hs. pose proof (INR_pos_of_le s Hs). unfold sub_centre, cell_y_hi, cell_x_lo, half, one, two.
+  rewrite !ofNat_R, !S_INR. cbn [fst snd add sub mul div opp ofZ ROps T]. f_equal; field; auto.
+Qed.
+Lemma cells_tile_pixel (ps c : RR) s : (1 <= s)%nat ->
+  cell_y_hi ps c s 0 = fst c + fst ps / 2 /\ cell_y_hi ps c s s = fst c - fst ps / 2 /\
+  cell_x_lo ps c s 0 = snd c - snd ps / 2 /\ cell_x_lo ps c s s = snd c + snd ps / 2.
+Proof.
+  intros Hs. pose proof (INR_pos_of_le s Hs). unfold cell_y_hi, cell_x_lo. cbn [INR]. repeat split; field; auto.
+Qed.
